@@ -53,10 +53,12 @@ func (dg *defaultGrowerPipeline) worker(ctx context.Context, wg *sync.WaitGroup,
 			if !ok {
 				return
 			}
+			verifPoint("grow.recv")
 			if err := dg.assemble(root); err != nil {
 				sendErr(ctx, errc, err)
 				return
 			}
+			verifPoint("grow.send")
 			select {
 			case <-ctx.Done():
 				return
